@@ -4,6 +4,7 @@ import (
 	"sort"
 	"time"
 
+	"github.com/nspcc-dev/dbft"
 	"github.com/nspcc-dev/dbft/verifharness/vt"
 )
 
@@ -22,12 +23,14 @@ type Sched struct {
 	// event-triggered faults ("a fault at a particular point"): instead of At, the cut starts right
 	// before TrigNode's TrigCount-th timeout ("before-timeout") or right after its TrigCount-th
 	// broadcast ("after-broadcast"), lasts Dur, and optionally lets messages already in flight arrive.
-	Trig         string
-	TrigNode     int
-	TrigCount    int
-	Dur          time.Duration
-	KeepInFlight bool
-	done         bool
+	Trig      string
+	TrigNode  int
+	TrigCount int
+	Dur       time.Duration
+	// "after-proposal" items: dropped when the proposal came AvoidGap±AvoidWin after the previous one
+	AvoidGap, AvoidWin time.Duration
+	KeepInFlight       bool
+	done               bool
 }
 
 type TimedOpts struct {
@@ -50,16 +53,19 @@ type TimedOpts struct {
 }
 
 type Timed struct {
-	W          *World
-	O          TimedOpts
-	resetAt    map[*Node]time.Time
-	nextSync   map[*Node]time.Time
-	Events     int
-	HitLimit   string // "", "horizon", "events"
-	LastFault  time.Duration
-	Done       bool
-	HealView   int
-	horizonSet bool
+	W            *World
+	O            TimedOpts
+	resetAt      map[*Node]time.Time
+	nextSync     map[*Node]time.Time
+	Events       int
+	HitLimit     string // "", "horizon", "events"
+	LastFault    time.Duration
+	Done         bool
+	HealView     int
+	horizonSet   bool
+	sentSeen     int
+	proposals    int
+	lastProposal time.Duration
 }
 
 func (t *Timed) r(label string, n int) int {
@@ -194,6 +200,28 @@ func (t *Timed) trigger(kind string, n *Node, count int) {
 }
 
 func (t *Timed) afterCall(n *Node) {
+	// "after-proposal": a scheduled item becomes due Dur after the TrigCount-th proposal of the run was broadcast
+	for ; t.sentSeen < len(t.W.Sent); t.sentSeen++ {
+		if t.W.Sent[t.sentSeen].T != dbft.PrepareRequestType {
+			continue
+		}
+		t.proposals++
+		now := t.W.Clock.Sub(t.W.Cfg.Epoch)
+		gap := now - t.lastProposal
+		t.lastProposal = now
+		for i := range t.O.Plan {
+			if s := &t.O.Plan[i]; !s.done && s.Trig == "after-proposal" && s.TrigCount == t.proposals {
+				if d := gap - s.AvoidGap; s.AvoidGap > 0 && t.proposals > 1 && d > -s.AvoidWin && d < s.AvoidWin {
+					// the proposal itself races the backups' first timeout: it is not delivered before
+					// that timer expires, the synchrony premise does not hold for this round
+					s.done = true
+					t.W.Stat("after_proposal_item_skipped_at_timeout_boundary")
+					continue
+				}
+				s.Trig, s.At = "", now+s.Dur
+			}
+		}
+	}
 	if bc := n.Broadcasts(); bc != n.bcSeen {
 		for c := n.bcSeen + 1; c <= bc; c++ {
 			t.trigger("after-broadcast", n, c)
